@@ -60,7 +60,14 @@ BAD_NAMES = ["1a", "a b", "$x", "-x", "a$b"]
 STD_PREFIXES = ["jr", "orx", "odk", "ev", "xsd", "h"]
 NS_PREFIXES = ["foo", "bar", "my-ns", "e_x", "p1", "ns.2", "q", "Foo", "x1", "Ünï", "abc", "_p"]
 URIS = ["http://foo", "http://example.com/ns", "urn:x:y", "http://a/b?c=d", "x", "http://é", "a&b", "<uri>"]
-ATTR_LOCALS = ["x", "y", "abc", "a-b", "a.b", "_u", "Z9", "é", "id", "version", "prefix", "Data", "k1", "k2", "k_3", "w"]
+ATTR_LOCALS = ["x", "y", "abc", "a-b", "a.b", "_u", "Z9", "é", "id", "version", "prefix", "Data", "k1", "k2", "k_3", "w",
+               # names of keyword parameters on the way to the DOM (node(), xml_instance): must be ordinary attributes
+               "tag", "append_template", "toParseString", "survey", "kwargs", "name", "nodeset", "ref"]
+BAD_ATTR_NAMES = ["1x", "a b", "a$", "-k", "und:x", "zz:y", "a:b:c"]
+BAD_CHARS = ["\x01", "\x0b", "\x1f", "\ufffe", "\x00"]
+REFS = ["${q1}", "${q1}", "${g1}", "${n1}", "${nope}", "${last-saved#q1}", "${", "${ q1 }", "${q1", "$ {q1}", "${q1}${q1}"]
+EMITTED = ["title", "id_string", "version", "style", "submission_url", "public_key", "auto_send", "auto_delete",
+           "instance_xmlns", "prefix", "delimiter", "instance_name"]
 YES = ["yes", "Yes", "YES", "true", "True", "TRUE", "true()"]
 NO = ["no", "No", "NO", "false", "False", "FALSE", "false()"]
 STEMS = ["myform", "my form", "form.v2", "Ünï", "data", "A", "x-1", "None", "survey"]
@@ -76,7 +83,8 @@ def adv(rng, maxlen=5, ws=0.0, ref=0.0):
         i = rng.randint(0, len(s))
         s = s[:i] + rng.choice(WS_ATOMS) + s[i:]
     if rng.random() < ref:
-        s += rng.choice(["${q1}", "${", "${ q1 }", "${nope}"])
+        i = rng.randint(0, len(s))
+        s = s[:i] + rng.choice(REFS) + s[i:]
     if rng.random() < 0.08:
         s = rng.choice(["“", "‘"]) + s + rng.choice(["”", "’"])
     if rng.random() < 0.08:
@@ -185,7 +193,9 @@ def gen_case(rng, tier_big=False, subset=None):
     """One case.  `subset`: fixed list of canonical core settings (exhaustive stream)."""
     channel = rng.choice(["dict"] * 6 + ["path-xlsx", "path-md", "mem-xlsx", "mem-md", "mem-md-str", "path-obj-md"])
     tamed = channel != "dict"
-    knobs = {"ws": rng.choice([0.0, 0.0, 0.0, 0.15]), "ref": rng.choice([0.0, 0.0, 0.0, 0.1])}
+    knobs = {"ws": rng.choice([0.0, 0.0, 0.0, 0.15]), "ref": rng.choice([0.0, 0.0, 0.1, 0.3]),
+             "aref": rng.choice([0.0, 0.0, 0.3, 0.6]), "badname": rng.choice([0.0, 0.0, 0.0, 0.25]),
+             "badchar": rng.choice([0.0, 0.0, 0.0, 0.3])}
     if subset is None:
         p = rng.choice([0.15, 0.35, 0.6, 0.9])
         chosen = [c for c in CORE if rng.random() < p]
@@ -216,12 +226,17 @@ def gen_case(rng, tier_big=False, subset=None):
                 k = rng.choice(STD_PREFIXES[:3] + ns_prefixes[:2]) + ":" + rng.choice(ATTR_LOCALS)
             else:
                 k = rng.choice(ATTR_LOCALS)
+            if rng.random() < knobs["badname"] and not tamed:
+                k = rng.choice(BAD_ATTR_NAMES)
             if single_colon and ":" in k:
                 k = rng.choice(ATTR_LOCALS)
             if k in seen or (k == "xmlns" and tamed):
                 continue
             seen.add(k)
             v = tame(rng, 4) if tamed else adv(rng, 4, knobs["ws"], 0.0)
+            if rng.random() < knobs["aref"]:  # ${…} in a custom attribute is text, not a reference
+                i = rng.randint(0, len(v)) if not tamed else len(v)
+                v = v[:i] + rng.choice(REFS if not tamed else REFS[:6]) + v[i:]
             attribute.append([k, v])
             hdr = ("attribute:" if single_colon else "attribute::") + k
             if noise and rng.random() < 0.2:
@@ -231,6 +246,21 @@ def gen_case(rng, tier_big=False, subset=None):
         c = rng.choice(UNKNOWN_COLS)
         if all(c != x[0] for x in cells) and not (tamed and c != c.strip()):
             cells.insert(rng.randint(0, len(cells)), [c, tame(rng, 3) if tamed else adv(rng, 3)])
+    if channel == "dict" and rng.random() < knobs["badchar"]:
+        # a character XML does not allow, in a value that is emitted: must be rejected, never written
+        cands = [c for c in cells if any(c[1] == v and k in EMITTED for k, v in intended) or c[0].lower().startswith("attribute")]
+        if cands:
+            c = rng.choice(cands)
+            i = rng.randint(0, len(c[1]))
+            nv = c[1][:i] + rng.choice(BAD_CHARS) + c[1][i:]
+            for lst in (intended, attribute):
+                for kv in lst:
+                    if kv[1] == c[1]:
+                        kv[1] = nv
+            old = c[1]
+            for cc in cells:
+                if cc[1] == old:
+                    cc[1] = nv
     dup = False
     if channel == "dict" and subset is None and rng.random() < 0.05 and cells:
         # two spellings of one setting: outside the property's quantifier (oracle skipped), kept for the
@@ -471,13 +501,77 @@ def spec_call(ctx, case, obs):
     return ctx.driver.call("settings.spec", settings=case["intended"], attribute=case["attribute"], **kw, **seen)
 
 
+NCNAME = re.compile(r"[A-Za-z_\u00c0-\u00d6\u00d8-\u00f6\u00f8-\u02ff\u0370-\u037d\u037f-\u1fff\u3001-\ud7ff]"
+                    r"[-.0-9A-Za-z_\u00b7\u00c0-\u00d6\u00d8-\u00f6\u00f8-\u02ff\u0300-\u037d\u037f-\u1fff\u3001-\ud7ff]*")
+XML_BAD = re.compile("[^\t\n\r\u0020-\ud7ff\ue000-\ufffd\U00010000-\U0010ffff]")
+XML_ERR_MARKS = ("is not a valid XML name", "is not declared", "Invalid namespace declaration", "which is not allowed in XML")
+
+
+def declared_namespaces(ns: str):
+    """the harness's own reading of a `namespaces` cell: whitespace separated `prefix=uri` items with exactly
+    one `=` and a non-empty prefix; quotes around the uri dropped; standard prefixes cannot be redefined"""
+    out = {}
+    for item in ns.split():
+        parts = item.split("=")
+        if len(parts) == 2 and parts[0] != "" and parts[0] not in STD_PREFIXES:
+            out[parts[0]] = parts[1].replace('"', "").replace("'", "")
+    return out
+
+
+def xml_problem(case):
+    """Would the settings put something into the header that XML does not allow?  (independent of pyxform:
+    names must be QNames with a declared prefix, namespace URIs non-empty, prefixes not xml/xmlns, values free
+    of non-XML characters) → the only acceptable outcome is a PyXFormError saying so."""
+    intended = dict(case["intended"])
+    decl = declared_namespaces(intended.get("namespaces", ""))
+    for p, uri in decl.items():
+        if not NCNAME.fullmatch(p) or p in ("xml", "xmlns") or uri == "":
+            return f"namespace declaration {p!r}={uri!r}"
+        if XML_BAD.search(uri):
+            return "character in namespace uri"
+    # root attribute names that the settings prescribe; an attribute:: column whose local name collides with
+    # another one may be evicted before anything looks at it (open finding C11-attribute-same-local-name-evicted),
+    # so a problem in such a column is only a *possible* reason for rejection
+    own = ["id"] + [n for n, c in (("version", "version"), ("xmlns", "instance_xmlns"), ("odk:prefix", "prefix"),
+                                   ("odk:delimiter", "delimiter")) if intended.get(c)]
+    names = [k for k, _ in case["attribute"]] + ["id"]
+    names += [n for n, c in (("version", "version"), ("xmlns", "instance_xmlns"), ("odk:prefix", "prefix"),
+                             ("odk:delimiter", "delimiter")) if intended.get(c)]
+    maybe = None
+    for k, v in case["attribute"]:
+        collides = any(n != k and local_name(n) == local_name(k) for n in names)
+        parts = k.split(":")
+        why = None
+        if len(parts) > 2 or not all(NCNAME.fullmatch(x) for x in parts):
+            why = f"attribute name {k!r}"
+        elif len(parts) == 2 and parts[0] not in ("xml", "xmlns") and parts[0] not in STD_PREFIXES and parts[0] not in decl:
+            why = f"undeclared prefix in {k!r}"
+        elif XML_BAD.search(v) and k not in own:  # an attribute:: column named like an own setting is overwritten
+            why = f"character in attribute {k!r}"
+        if why and not collides:
+            return why
+        if why:
+            maybe = "?" + why
+    for k in EMITTED:
+        if k in intended and XML_BAD.search(intended[k]):
+            return f"character in {k}"
+    return maybe
+
+
 ERR_TEXT = {
     "dupHeader": "different names for the same column",
     "invalidHeader": "Invalid headers provided",
     "omitWithKey": "Cannot omit instanceID",
     "emptyId": "empty id_string",
     "badName": "contains an invalid character",
+    "badRef": "Reference expressions must only include question names",
+    "xmlInvalid": XML_ERR_MARKS,
 }
+
+
+def err_matches(kind: str, msg: str) -> bool:
+    t = ERR_TEXT[kind]
+    return any(x in msg for x in t) if isinstance(t, tuple) else t in msg
 
 
 def one_case(ctx, case, tmpdir):
@@ -506,7 +600,7 @@ def one_case(ctx, case, tmpdir):
         else:
             ctx.mismatch("model accepts, implementation " + r["class"], case, r["msg"][:300], "ok")
     elif m["outcome"] == "error":
-        if r["class"] != "pyxform" or ERR_TEXT[m["err"]["kind"]] not in r["msg"]:
+        if r["class"] != "pyxform" or not err_matches(m["err"]["kind"], r["msg"]):
             ctx.mismatch("model rejects (" + m["err"]["kind"] + "), implementation " + r["class"], case,
                          r.get("msg", "")[:300], m["err"])
     # ---------------- oracle on the implementation's output
@@ -514,14 +608,23 @@ def one_case(ctx, case, tmpdir):
         ctx.fail(Failure("crash", r["msg"][:300], case, signature="crash:" + r.get("site", ""), extra={"site": r.get("site")}))
     elif not case["dup"]:
         s = spec_call(ctx, case, obs)
+        xmlp = xml_problem(case)
+        top_ref = any("${" in v for _, v in case["intended"])  # top-level cells go through the reference-syntax check
+        iname_ref = any(c == "instance_name" and "${" in v for c, v in case["intended"])
+        if any("${" in v for _, v in case["attribute"]):
+            ctx.count("attribute_value_with_${")
+        if top_ref:
+            ctx.count("setting_value_with_${")
         if r["class"] == "ok":
             if s["rejects"] is not None:
                 ctx.fail(Failure("accepted-despite-" + s["rejects"]["kind"],
                                  "settings the documentation rejects were accepted", case, extra={"spec": s["rejects"]}))
+            elif xmlp is not None and not xmlp.startswith("?"):
+                ctx.fail(Failure("accepted-xml-invalid", "accepted although the header would contain: " + xmlp, case))
             else:
                 want = {k: (pairs_to_dict(s[k]) if k in ("rootAttrs", "submission", "nsmap") else s[k]) for k in LOCS}
-                if any(c == "instance_name" and "${" in v for c, v in case["intended"]):
-                    want["instanceName"] = obs["instanceName"]  # ${ref} substitution is C03's subject
+                if iname_ref:
+                    want["instanceName"] = obs["instanceName"]  # ${ref} substitution in an expression is C03's subject
                     ctx.count("instance_name_with_reference")
                 for k in diff_locs(obs, want):
                     ctx.fail(Failure("header:" + k, f"{k}: read {obs[k]!r}, settings prescribe {want[k]!r}", case,
@@ -529,12 +632,16 @@ def one_case(ctx, case, tmpdir):
                 if obs["htmlOther"] or obs["bodyOther"]:
                     ctx.fail(Failure("header:stray-attribute", f"h:html {obs['htmlOther']} h:body {obs['bodyOther']}", case))
         else:
-            lexer = any("${" in v for _, v in case["row"]) and (
-                "Reference expressions" in r["msg"] or "trying to replace ${" in r["msg"])
-            if s["rejects"] is None and not lexer:
-                ctx.fail(Failure("rejected-valid-settings", r["msg"][:300], case))
-            elif s["rejects"] is not None and not lexer and ERR_TEXT[s["rejects"]["kind"]] not in r["msg"]:
-                ctx.fail(Failure("rejected-for-another-reason", r["msg"][:300], case, extra={"spec": s["rejects"]}))
+            msg = r["msg"]
+            excused = (
+                (top_ref and ERR_TEXT["badRef"] in msg)  # malformed ${ in a settings cell: documented rejection
+                or (iname_ref and "trying to replace ${" in msg)  # instance_name refers to a missing question
+                or (xmlp is not None and err_matches("xmlInvalid", msg))
+            )
+            if s["rejects"] is None and not excused:
+                ctx.fail(Failure("rejected-valid-settings", msg[:300], case))
+            elif s["rejects"] is not None and not excused and not err_matches(s["rejects"]["kind"], msg):
+                ctx.fail(Failure("rejected-for-another-reason", msg[:300], case, extra={"spec": s["rejects"]}))
     ctx.record({k: case[k] for k in ("channel", "hdr", "row", "args", "fallback", "survey", "has_sheet")},
                r["class"] == "ok" and bool(case["intended"] or case["attribute"]))
 
